@@ -1,12 +1,22 @@
 """C13 — rewards: only for signed blocks, proportional to stake; withdrawals exact."""
+import vcheck as V
 from props import common
 
 THEOREMS = ["C13_holds_closed", "C13_holds_closed_mod", "C13_run_wf_reachable", "C13_holds", "C13_issuance", "C13_issuance_exact", "C13_withdraw_bounded", "C13_withdraw_exact", "C13_other_tx", "C13_end_block", "C13_commit"]
 
 
 def run(ctx):
-    common.app_check(ctx, "C13", "theories/Props/C13.v", THEOREMS, codes=[4, 10, 1], pred="P_C13", known_classes=(2,),
+    res = common.app_check(ctx, "C13", "theories/Props/C13.v", THEOREMS, codes=[4, 10, 1], pred="P_C13", known_classes=(2,), profile="corpus queries",
                      extra_assume=["consensus_ok: the votes of block h name the validators and powers that result from the updates of blocks <= h-3 (the harness's consensus simulator); the predicate additionally REQUIRES that a signing validator recorded in the version the issuance reads is recorded there with the power it voted with — where that fails the code silently pays nothing (known finding: staking to a genesis validator in block 1)",
                                    "run_wf: crediting a withdrawal does not wrap the balance (supply bound); without it a failed withdrawal can leave the reward record emptied (InvReward.withdraw_fail_frame_refuted, balance + reward >= 2^256)",
                                    "reward-per-power < 2^192 and stake powers < 2^63 for the exact (non-modular) form"],
                      nontrivial_rule="non-trivial = history with validator updates; issuance happens in almost every block (ev:reward-block), withdrawals zero / partial / exact / excessive / repeated are in the distribution")
+    if res is None:
+        return
+    # "an account's withdrawable reward ALWAYS equals everything issued to it minus everything it has
+    # withdrawn", as the reward query reports it for a committed height: asked between blocks, in the
+    # middle of the next block (after its issuance, after a withdrawal) and later, the answer is the same
+    st = ctx.app_stats
+    for d in [x for x in (st.get("QueryBad") or []) if x.startswith("reward ") or " reward " in x or x.startswith("reward")][:3]:
+        V.violation(ctx, "reward-query-answer-changed", {"kind": "reward-query-for-a-committed-height-not-stable", "theorem": "C13_holds_closed", "what": d})
+    common.patch_evidence(ctx, {"reward_queries_repeated": st.get("QueryRepeated", 0)})
